@@ -414,7 +414,7 @@ pub fn twin_run(def: &CheckDef, fam: &Family, plan: &Plan, materialise: bool) ->
     // 1. the execution that receives the extra acknowledgements (in search mode the forger is
     //    active here and its frames end up in the materialised plan)
     let twin_fam = Family { custom: None, ..fam.clone() };
-    let oracles: Vec<Box<dyn Oracle>> = vec![Box::new(TwinOracle::recorder(def.property, sender, recording.clone())), Box::new(RttSampleOracle::new(def.property, sender)), Box::new(StateCoverage::new())];
+    let oracles: Vec<Box<dyn Oracle>> = vec![Box::new(TwinOracle::recorder(def.property, sender, recording.clone())), Box::new(RttSampleOracle::new(def.property, sender)), Box::new(crate::oracle_wire::ModeOracle::marks_only(def.property)), Box::new(StateCoverage::new())];
     let t = run_plan_with(def, &twin_fam, plan, true, oracles)?;
     if t.violation.is_some() || t.aborted_by_panic.is_some() {
         return Ok(t);
